@@ -295,7 +295,20 @@ async fn post_tck_evaluate(params: Json<TckEvaluateParams>, data: web::Data<Appl
 /// Input values may be defined in `JSON` or `FEEL` context format.
 /// Result is always in JSON format.
 #[post("/evaluate/{model}/{invocable}")]
-async fn post_evaluate(params: web::Path<EvaluateParams>, request_body: String, data: web::Data<ApplicationData>) -> HttpResponse {
+async fn post_evaluate(
+  params: web::Path<EvaluateParams>,
+  request_body: std::result::Result<String, actix_web::Error>,
+  data: web::Data<ApplicationData>,
+) -> HttpResponse {
+  // a body that can not be read, because it is too long or is not a valid text, is reported like all other errors
+  let request_body = match request_body {
+    Ok(request_body) => request_body,
+    Err(reason) => {
+      return HttpResponse::build(reason.as_response_error().status_code())
+        .content_type("application/json")
+        .body(ResultDto::<String>::error(err_internal_error(&reason.to_string())).to_string());
+    }
+  };
   if let Ok(workspace) = data.workspace.read() {
     match do_evaluate(&workspace, &params.into_inner(), &request_body) {
       Ok(value) => HttpResponse::Ok()
